@@ -299,8 +299,12 @@ MintOK(pl, res0, S0, dep, minted) ==
        IN BLe(BMul(minted, d0m), BMul(S0, BSub(BAdd(d1, BNat(3)), d0m)))
 MintExactCp(pl, res0, S0, dep, minted) ==
   pl.kind = "cp" /\ S0 # Z => minted = P!Min(P!CpShare(dep[1], S0, res0[1]), P!CpShare(dep[2], S0, res0[2]))
-FirstDNearExact(pl, res1, S1) ==     \* the integer D used to mint at the first deposit is the new supply
-  LET xs == Norm(pl, res1, One) IN P!DBelowRoot(Ann(pl), xs, BSub(S1, Two)) /\ P!DAboveRoot(Ann(pl), xs, BAdd(S1, Two))
+FirstDWithin(pl, res1, S1, slack) ==     \* the integer D used to mint at the first deposit is the new supply
+  LET xs == Norm(pl, res1, One) IN P!DBelowRoot(Ann(pl), xs, BSub(S1, slack)) /\ P!DAboveRoot(Ann(pl), xs, BAdd(S1, slack))
+FirstDNearExact(pl, res1, S1) == FirstDWithin(pl, res1, S1, Two)
+(* recorded finding F12: the integer Newton iteration of the mint path accumulates truncation error on skewed
+   3-4 asset pools; residual: within 2 units + 10^-15 relative of the exact root *)
+F12(pl, res1, S1) == IF FirstDWithin(pl, res1, S1, BAdd(Two, BDiv(S1, BMul(E9, BNat(1000000))))) THEN "F12" ELSE ""
 DepositRatioWithin(d, R, t) == P!DepositRatioWithin(d, R, t)
 Proportional(d, R) == P!Proportional(d, R)
 
@@ -317,7 +321,7 @@ JudgeDepositCore(s, e, p, pl, res0, S0, dep, preT, preSupplyT) ==
   IN [ C02_mint_not_above_contribution |-> Must(MintOK(pl, res0, S0, dep, minted)),
        M_mint_cp_is_min_of_shares |-> Must(MintExactCp(pl, res0, S0, dep, minted)),
        C02_first_deposit_locks_minimum |-> G(first, BLe(BAdd(minted, locked), S1) /\ minted # Z),
-       C19_first_deposit_D_near_exact |-> G(first /\ pl.kind = "ss" /\ AllPositive(res1), FirstDNearExact(pl, res1, S1)),
+       C19_first_deposit_D_near_exact |-> GK(first /\ pl.kind = "ss" /\ AllPositive(res1), FirstDNearExact(pl, res1, S1), F12(pl, res1, S1)),
        C02_value_per_lp_non_decreasing |-> Must(ValueNonDecreasing(pl, res0, S0, res1, S1)),
        C02_deposit_accounting  |-> Must(/\ Pools(p)[e.pool] = [pl EXCEPT !.res = res1, !.supply = S1]
                                         /\ OtherPoolsUnchanged(s, p, {e.pool})
@@ -325,6 +329,7 @@ JudgeDepositCore(s, e, p, pl, res0, S0, dep, preT, preSupplyT) ==
        C08_lock_only_for_sender |-> G(lock, e.receiver = "none" \/ e.receiver = e.sender),
        C14_lock_only_for_sender |-> G(lock /\ e.single, e.receiver = "none" \/ e.receiver = e.sender),
        C08_locked_lp_goes_to_senders_position |-> G(lock, LockedFor(s, p, e.sender, pl.lp, minted, e.lock.dur)),
+       C14_single_asset_locks_only_for_sender |-> G(lock /\ e.single, LockedFor(s, p, e.sender, pl.lp, minted, e.lock.dur)),
        C10_locked_lp_weight_credited_to_owner |-> G(lock, WeightCreditedToOwner(s, p, e.sender, pl.lp)),
        C08_unlocked_deposit_touches_no_position |-> G(~lock, p.fm.pos = s.fm.pos /\ p.fm.hist = s.fm.hist) ]
 
@@ -376,7 +381,10 @@ JudgeProvideSingle(s, e, p) ==
        C03_single_invariant_non_decreasing |-> GK(good, InvariantOK(pl, resMid), F7(pl, resMid, a)),
        C13_single_swap_within_tolerance |-> G(good /\ half # Z, SwapAllowedNoBelief(pl, o, a, half, q.ret, Tol(e.swap_slip))),
        C20_pool_rejected_noop  |-> G(~e.ok, Unchanged(s, p)) ]
-     @@ (IF good THEN JudgeDepositCore(s, e, p, plMid, resMid, pl.supply, dep, preT, <<>>) ELSE NoGuards)
+     @@ (IF good THEN LET core == JudgeDepositCore(s, e, p, plMid, resMid, pl.supply, dep, preT, <<>>)
+                      IN core @@ [ C14_equals_swap_half_then_deposit |->
+                                     Must(core.C02_deposit_accounting.v /\ core.M_mint_cp_is_min_of_shares.v /\ core.C02_mint_not_above_contribution.v) ]
+         ELSE NoGuards)
 
 (* ------------------------------------------------------------------ withdrawals (C02 C17) *)
 JudgeWithdraw(s, e, p) ==
@@ -449,14 +457,26 @@ JudgeUpdateConfig(s, e, p) ==
 JudgeDonate(s, e, p) ==
   [ C01_donation_changes_no_reserves |-> Must(Pools(p) = Pools(s) /\ (e.ok => MoneyMoves(s, p, FundsT(e, "pm")))) ]
 JudgeAdvance(s, e, p) == [ C20_time_changes_nothing |-> Must(Unchanged(s, p)) ]
-JudgeRsim(e) ==
-  [ C12_reverse_quote_sufficient_cp |-> G(e.kind = "cp" /\ e.ok /\ e.fwd_plus1.ok, BLe(e.ask.a, e.fwd_plus1.ret)) ]
+(* beyond the listed properties (S_): the stableswap reverse quote, fed back into the forward simulation, returns the
+   requested amount up to 3 ask units + the value of 2 offered units at the peg + 10^-6 relative *)
+RsimSlack(pl, e) ==
+  LET o == Idx(pl, e.offer_denom)  a == Idx(pl, e.ask.d)
+  IN BAdd(BAdd(BNat(3), BMul(Two, BAdd(BDiv(P!Pow10(pl.dec[a]), P!Pow10(pl.dec[o])), One))), BDiv(e.ask.a, BNat(1000000)))
+JudgeRsim(s, e) ==
+  [ C12_reverse_quote_sufficient_cp |-> G(e.kind = "cp" /\ e.ok /\ e.fwd_plus1.ok, BLe(e.ask.a, e.fwd_plus1.ret)),
+    S_reverse_quote_roundtrip_ss |-> G(e.kind = "ss" /\ e.ok /\ e.fwd.ok /\ e.pool \in DOMAIN Pools(s),
+                                       LET sl == RsimSlack(Pools(s)[e.pool], e)
+                                       IN BLe(e.ask.a, BAdd(e.fwd.ret, sl)) /\ BLe(e.fwd.ret, BAdd(e.ask.a, sl))) ]
+(* paginated queries return every item exactly once, in order, at most `limit` per page *)
+JudgePages(e) ==
+  [ S_pagination_complete_and_ordered |-> Must(e.paged = e.all /\ \A i \in DOMAIN e.page_sizes : e.page_sizes[i] <= e.limit) ]
 
 (* ------------------------------------------------------------------ the trace *)
-HasPost(e) == e.ev # "q_rsim"
+HasPost(e) == e.ev \notin {"q_rsim", "q_pages"}
 Judge(s, e) ==
   CASE e.ev = "reset" -> NoGuards
-    [] e.ev = "q_rsim" -> JudgeRsim(e)
+    [] e.ev = "q_rsim" -> JudgeRsim(s, e)
+    [] e.ev = "q_pages" -> JudgePages(e)
     [] e.ev = "advance" -> JudgeAdvance(s, e, e.post)
     [] e.ev = "donate" -> JudgeDonate(s, e, e.post)
     [] e.ev = "pm_swap" -> JudgeSwap(s, e, e.post)
